@@ -45,23 +45,27 @@ def part_a(c: Check):
     for f in ("processed", "debug", "failed", "undelivered", "ratelimited", "accessblocked", "unknowndedicated"):
         if fates[f] == 0:
             raise Undecided("vacuous: fate %s never exercised" % f)
-    logged = [e for e in reqs if e["o"]["logged"] > 0]
-    with_ip = [e for e in logged if e["o"]["entry"]["ip"] != ""]
-    outcomes = Counter(e["a"]["outcome"] for e in logged)
-    if len(logged) < 100 or not with_ip or len(with_ip) == len(logged) or len(outcomes) < 7:
-        raise Undecided("vacuous: logged=%d with_ip=%d outcomes=%s" % (len(logged), len(with_ip), dict(outcomes)))
-    if not any(e["q"]["rcode"] != e["q"]["upsrcode"] for e in logged):
+    # (on the inputs, never on what was observed)
+    must = [e for e in reqs if e["a"]["attr"] == "profile" and e["a"]["qlog"] and e["a"]["fate"] == "processed"]
+    n_ip = sum(1 for e in must if e["a"]["iplog"])
+    outcomes = Counter(e["a"]["outcome"] for e in must)
+    if len(must) < 100 or n_ip == 0 or n_ip == len(must) or len(outcomes) < 7:
+        raise Undecided("vacuous: must-log=%d with iplog=%d outcomes=%s" % (len(must), n_ip, dict(outcomes)))
+    if not any(e["q"]["rcode"] != e["q"]["upsrcode"] for e in must):
         raise Undecided("vacuous: sent rcode never differs from the upstream rcode")
-    billed_not_logged = sum(1 for e in reqs if e["o"]["billed"] > 0 and e["o"]["logged"] == 0)
-    if billed_not_logged == 0:
-        raise Undecided("vacuous: no billed-but-not-logged request")
+    if not any(e["a"]["attr"] == "profile" and not e["a"]["qlog"] and e["a"]["fate"] == "processed" for e in reqs):
+        raise Undecided("vacuous: no profile request with the query log off")
+    if not any(e["a"]["attr"] == "anon" and e["a"]["fate"] == "processed" for e in reqs):
+        raise Undecided("vacuous: no anonymous request")
+    logged = [e for e in reqs if e["o"]["logged"] > 0]
     for e in reqs:
         a = e["a"]
         c.count_case(("A", a["attr"], a["qlog"], a["iplog"], a["fate"], a["outcome"], a["proto"], a["loc"],
                       e["q"]["qt"], e["conc"]["drop"], e["conc"]["fail"], e["conc"]["mode"], e["q"]["upsrcode"],
                       e["phase"]),
                      nontrivial=a["attr"] == "profile" or a["fate"] != "processed")
-    c.sample({"part": "A", "vector": logged[0]["a"], "line": logged[0]["o"]["raw"].strip()})
+    if logged:
+        c.sample({"part": "A", "vector": logged[0]["a"], "line": logged[0]["o"]["raw"].strip()})
     anon = [e for e in reqs if e["a"]["attr"] == "anon" and e["a"]["fate"] == "processed"]
     if anon:
         c.sample({"part": "A", "vector": anon[0]["a"], "name": anon[0]["conc"]["name"],
